@@ -2,6 +2,8 @@
 # Build the Coq development (full .vo build), the extraction and the OCaml driver.  Incremental.
 set -e
 cd "$(dirname "$0")/coq"
+# the source-derived part of the model (coq/gen/Src*.v) is regenerated from /repo's working tree on every build
+/venv/bin/python ../harness/translate.py "${VERIF_REPO:-/repo}" > translate.log 2>&1 || { cat translate.log; echo "TRANSLATOR CRASHED"; exit 2; }
 [ -f Makefile ] && [ Makefile -nt _CoqProject ] || coq_makefile -f _CoqProject -o Makefile >/dev/null
 timeout 3000 make -j16 > build.log 2>&1 || { tail -30 build.log; echo "COQ BUILD FAILED"; exit 2; }
 cd extract
